@@ -102,7 +102,9 @@ def build_cli(release=False, repo=None):
     cmd = ["cargo", "build", "--offline", "--quiet", "-p", "grass", "--bin", "grass"]
     if release:
         cmd.append("--release")
-    _run(cmd, repo, _env({"CARGO_TARGET_DIR": td}), "cli")
+    # dev profile with opt-level 1 (an unoptimised binary needs ~100 ms per invocation); --release uses the
+    # repository's own release profile (LTO, panic=abort)
+    _run(cmd, repo, _env({"CARGO_TARGET_DIR": td, "CARGO_PROFILE_DEV_OPT_LEVEL": "1", "CARGO_PROFILE_DEV_DEBUG": "0"}), "cli")
     return os.path.join(td, "release" if release else "debug", "grass")
 
 
